@@ -228,6 +228,10 @@ class G:
         r = self.r
         c = r.random()
         later = self.match[i + 1:]
+        if c < 0.08:
+            # a keyword rule: the whole body is one string literal
+            self.used_features.add('match-single-literal')
+            return self.newkw()
         if c < 0.3:
             return Choice([self.newkw() for _ in range(r.randint(2, 3))])
         if c < 0.5:
